@@ -3,7 +3,8 @@ import AslModel.Stream
 /-! Model driver for C16 (endian-aware binary streams).
 
 A case is one stream object: `new <sb|file|sock> <def|big|little|native>`, a write phase — each write prints the
-bytes it appended — then `reader <e>` and a read phase over everything written.
+bytes it appended — then `reader <e>` (or `readerf <e> <cut>…`: a Socket reader fed in pieces cut at those offsets) and a
+read phase over everything written.
 Write ops: `endian`, `w` (scalar), `wa` (Array<T>), `av`/`wv` (one Array object written repeatedly; prints the caller's
 array too), `wb`/`ws`/`wz`/`wc`/`wca` (ByteArray, String, const char*, char*, char[N]), `wcarr` (T[N], StreamBuffer),
 `was` (Array<String>), `wd`/`wdsb` (Stack/Queue/StreamBuffer objects, File/Socket), `wself`/`wselfpart` (a StreamBuffer's
@@ -76,6 +77,14 @@ def step (st : St) (ts : List String) : St × String :=
   | some k =>
   match ts with
   | ["reader", es] =>
+    if st.reading then (st, "closed") else
+    match parseEndian (defaultR k) es with
+    | none => (st, "bad-op")
+    | some e => ({ st with reading := true, re := e, rest := st.out }, s!"ok {st.out.length}")
+  | "readerf" :: es :: cuts =>
+    -- the reader's peer delivers the bytes in pieces cut at the given offsets (a Socket reader; nothing to cut for the
+    -- other classes): what is read does not depend on the pieces (`AslModel.Stream.recvAll_chunks`), so as `reader`
+    if cuts.any (fun c => c.isEmpty ∨ c.length > 9 ∨ !c.all Char.isDigit) then (st, "bad-op") else
     if st.reading then (st, "closed") else
     match parseEndian (defaultR k) es with
     | none => (st, "bad-op")
